@@ -194,6 +194,7 @@ Definition judge_cfloat (cfg : list Z) (op : Z) (args res : list Z) : verdict :=
   if Z.eqb op OP_to_f64 then judge_to_f64 da res else
   if Z.eqb op OP_to_f32 then judge_to_f32 da res else
   if Z.eqb op OP_to_f64_rt then
+    if negb (ieee_exact 11 52 da) then mkV true res false else
     (* round trip through double returns the same encoding (NaN: any NaN; non-canonical zeros of
        a no-subnormal configuration: any zero of the same sign) *)
     match da with
